@@ -64,6 +64,51 @@ func runSLIMIT(e *Env) (*Summary, error) {
 	col.sum.Exhaustive = true
 	saved := kvql.PlanBatchSize
 	defer func() { kvql.PlanBatchSize = saved }()
+	// limits beyond 2^31 / 2^32: offsets and counts are Go ints
+	{
+		kvql.PlanBatchSize = 3
+		kvs := slimitStore(7)
+		for _, lim := range []struct {
+			txt  string
+			s, n int
+		}{{" limit 4294967296, 5", 4294967296, 5}, {" limit 0, 4294967296", 0, 4294967296}, {" limit 4294967296", 0, 4294967296}, {" limit 2147483648", 0, 2147483648},
+			{" limit 2, 2147483649", 2, 2147483649}, {" limit 2147483648, 1", 2147483648, 1}, {" limit 1, 4294967297", 1, 4294967297}} {
+			for _, sq := range slimitQueries {
+				for _, batch := range []bool{false, true} {
+					base := runStatement(sq.q, NewRefStore(kvs), batch, true)
+					got := runStatement(sq.q+lim.txt, NewRefStore(kvs), batch, true)
+					col.Eval(1)
+					if base.Outcome() != "ok" {
+						continue
+					}
+					all := rowsList(base)
+					lo := min(lim.s, len(all))
+					hi := len(all)
+					if lim.n < len(all)-lo {
+						hi = lo + lim.n
+					}
+					want := strings.Join(all[lo:hi], " ; ")
+					have := got.Outcome()
+					if have == "ok" {
+						have = strings.Join(rowsList(got), " ; ")
+					}
+					if have != want {
+						col.Find(Finding{Kind: "property", Group: "SLIMIT", Check: "limit-is-slice-huge-" + sq.kind, Case: fmt.Sprintf("%s%s  [store size 7, batch size 3, batch=%v]", sq.q, lim.txt, batch),
+							Line: "SLIMIT " + hxs(sq.q+lim.txt), Engine: have, Model: want, Seed: e.Seed, Index: 0, Properties: []string{"C08"}})
+					}
+				}
+			}
+			st := NewRefStore(kvs)
+			del := runStatement("delete where key ^= 'k'"+lim.txt, st, true, true)
+			left := len(st.Pairs())
+			wantLeft := 7 - max(0, min(lim.n, 7-min(lim.s, 7)))
+			col.Eval(1)
+			if del.Outcome() != "ok" || left != wantLeft {
+				col.Find(Finding{Kind: "property", Group: "SLIMIT", Check: "delete-limit-huge", Case: "delete where key ^= 'k'" + lim.txt + "  [store size 7]",
+					Line: "SLIMIT " + hxs("delete where key ^= 'k'"+lim.txt), Engine: fmt.Sprintf("%s, %d pairs left", del.Outcome(), left), Model: fmt.Sprintf("%d pairs left", wantLeft), Seed: e.Seed, Properties: []string{"C08", "C11"}})
+			}
+		}
+	}
 	for _, bs := range bss {
 		kvql.PlanBatchSize = bs
 		type job struct {
